@@ -3,8 +3,10 @@ package props
 import (
 	"fmt"
 	"go/ast"
+
 	"go/constant"
 	"go/types"
+	"lwverif/internal/absint"
 	"sort"
 	"strings"
 
@@ -322,49 +324,72 @@ func c07Stream(c *Ctx) {
 	r.Check(guardOK && ordered, "R5.stream", "decodeDataPayloadToMACCommands/guard-before-slice", pos, "`len(b[i:]) < plLen+1` returns an error before `b[i:i+1+plLen]`", fmt.Sprintf("guard=%v slice=%v ordered=%v", guardOK, sliceOK, ordered), true)
 	r.Check(advOK && postOK, "R5.stream", "decodeDataPayloadToMACCommands/advance", pos, "index advances by plLen and the loop post by 1 (1+size per command)", fmt.Sprintf("i=i+plLen:%v i++:%v", advOK, postOK), true)
 	r.Check(unknownZero, "R5.stream", "decodeDataPayloadToMACCommands/unknown-cid", pos, "a CID without registered payload has size 0", fmt.Sprint(unknownZero), true)
-	// R7: marshalPayload port-0 rule
-	mp := load.FuncDecl(pk, "MACPayload.marshalPayload")
-	if mp == nil {
-		r.Unknown("R7.port0", "MACPayload.marshalPayload", "", "anchor function present", "missing")
-		return
+	c07Port0(c)
+}
+
+// c07Port0 (E1): MACPayload.MarshalBinary with MAC commands in FRMPayload succeeds only with FPort = 0 (and no FOpts),
+// fails exactly when one of the commands fails to encode, and emits the concatenation of the commands.
+func c07Port0(c *Ctx) {
+	r := c.Run
+	mk := func(port int) avariant {
+		v := avariant{Name: fmt.Sprintf("fport-class%d", port), NoStream: true,
+			Fix:   map[string]int64{"FHDR.FCtrl.fOptsLen": 0, "FRMPayload[0].*.CID": 0x03, "FRMPayload[1].*.CID": 0x08},
+			Lens:  map[string]int{"FRMPayload": 2},
+			Where: map[string][2]int64{},
+			Dyn: map[string]string{"FRMPayload[0]": ":MACCommand", "FRMPayload[0].*.Payload": ":LinkADRReqPayload",
+				"FRMPayload[1]": ":MACCommand", "FRMPayload[1].*.Payload": ":RXTimingSetupReqPayload"}}
+		switch port {
+		case 1:
+			v.NonNil = []string{"FPort"}
+			v.Fix["FPort.*"] = 0
+		case 2:
+			v.NonNil = []string{"FPort"}
+			v.Where["FPort.*"] = [2]int64{1, 255}
+		}
+		return v
 	}
-	found := false
-	ast.Inspect(mp.Body, func(n ast.Node) bool {
-		ifs, ok := n.(*ast.IfStmt)
-		if !ok || ifs.Init == nil {
-			return true
+	for port := 0; port <= 2; port++ {
+		in := absint.NewInterp(c.Prog)
+		d := in.D
+		MT := in.NamedType("", "MACPayload")
+		dom := absint.True
+		var mp absint.Value
+		var res, e1, e2 []absint.Value
+		err := in.Try(func() {
+			mp = symDeep(in, "", MT, mk(port), aspec{}, &dom)
+			in.SetLive(dom)
+			res = in.CallMethod(&absint.Cell{V: mp}, MT, "MarshalBinary")
+			e1 = in.CallMethod(deepLeafCell(mp, "FRMPayload[0].*"), in.NamedType("", "MACCommand"), "MarshalBinary")
+			e2 = in.CallMethod(deepLeafCell(mp, "FRMPayload[1].*"), in.NamedType("", "MACCommand"), "MarshalBinary")
+		})
+		key := fmt.Sprintf("MACPayload.MarshalBinary/two-mac-commands/%s", []string{"fport-absent", "fport=0", "fport=1..255"}[port])
+		if err != nil {
+			r.Unknown("R7.port0", key, "", "inside the interpreter's subset", err.Error())
+			continue
 		}
-		as, ok := ifs.Init.(*ast.AssignStmt)
-		if !ok || len(as.Rhs) != 1 {
-			return true
+		ev, _ := res[1].(*absint.ErrVal)
+		if ev == nil {
+			r.Unknown("R7.port0", key, "", "error result", in.Show(res[1]))
+			continue
 		}
-		ta, ok := as.Rhs[0].(*ast.TypeAssertExpr)
-		if !ok || types.ExprString(ta.Type) != "*MACCommand" {
-			return true
+		if port != 1 {
+			w := d.M.And(dom, d.M.Not(ev.NonNil))
+			r.Check(w == absint.False, "R7.port0", key, "", "MAC commands in FRMPayload are refused unless FPort is present and 0", witnessOr(in, w, "always refused"), true)
+			continue
 		}
-		// first statement of the body: if FPort == nil || *FPort != 0 { return error }
-		if len(ifs.Body.List) == 0 {
-			return true
+		x1, _ := e1[1].(*absint.ErrVal)
+		x2, _ := e2[1].(*absint.ErrVal)
+		want := d.M.Or(x1.NonNil, x2.NonNil)
+		diff := d.M.And(dom, d.M.Xor(ev.NonNil, want))
+		r.Check(diff == absint.False, "R7.port0", key+"/error", "", "fails exactly when one of the commands is out of range (no error is lost)", fmt.Sprintf("equal: %v%s", diff == absint.False, witnessIf(in, diff)), true)
+		okc := d.M.And(dom, d.M.Not(want))
+		out := sliceVals(res[0])
+		exp := append(append([]absint.Value{}, sliceVals(e1[0])...), sliceVals(e2[0])...)
+		if len(out) < 8+len(exp) {
+			r.Bad("R7.port0", key+"/bytes", "", fmt.Sprintf("FHDR(7) FPort(1) then %d command bytes", len(exp)), fmt.Sprintf("%d bytes", len(out)))
+			continue
 		}
-		inner, ok := ifs.Body.List[0].(*ast.IfStmt)
-		if !ok || !retErr(inner.Body) {
-			return true
-		}
-		found = true
-		tt := truthTable(pk.TypesInfo, inner.Cond, []string{"p.FPort == nil", "*p.FPort != 0"})
-		// required: reject unless (FPort != nil && *FPort == 0); rows: nil? / nonzero?
-		want := map[string]bool{"TT": true, "TF": true, "FT": true, "FF": false}
-		okT := tt != nil
-		for k, v := range want {
-			if tt == nil || tt[k] != v {
-				okT = false
-			}
-		}
-		r.Check(okT, "R7.port0", "MACPayload.marshalPayload/maccommand-guard", c.Prog.Rel(inner.Pos()), "rejects iff FPort == nil or *FPort != 0", fmt.Sprintf("%s -> %v", types.ExprString(inner.Cond), tt), true)
-		return false
-	})
-	if !found {
-		r.Unknown("R7.port0", "MACPayload.marshalPayload/maccommand-guard", c.Prog.Rel(mp.Pos()), "guard on the *MACCommand branch", "not recognised")
+		compareBytes(c, in, "R7.port0", key+"/commands", "", out[8:], vals(exp...), okc, nil)
 	}
 }
 
